@@ -169,6 +169,21 @@ def add [Zero K] [Add K] [DecidableEq K] (a b : Basis K) : Option (Basis K) :=
     | .sparse n m ca, .sparse _ m' cb => some (.sparse n (m + m') (ca ++ cb))
     | _, _ => none
 
+/-- `a.extend(b)` (in place; the storage form of `a` is kept): dense `a` concatenates the
+densified modes of `b` along the last axis, sparse `a` `hstack`s. -/
+def extend [Zero K] [Add K] [DecidableEq K] (a b : Basis K) : Option (Basis K) :=
+  if a.npix ≠ b.npix then none else
+  match a with
+  | .dense n m ra => some (.dense n (m + b.nmodes) (List.zipWith (· ++ ·) ra (toDense b)))
+  | .sparse n m ca =>
+    match sparsify b with
+    | .sparse _ m' cb => some (.sparse n (m + m') (ca ++ cb))
+    | _ => none
+
+/-- `a.append(mode)` (in place): one more column -/
+def append [Zero K] [Add K] [DecidableEq K] (a : Basis K) (v : List K) : Option (Basis K) :=
+  if v.length ≠ a.npix then none else extend a (.dense a.npix 1 (v.map fun x => [x]))
+
 /-! ### Index expressions -/
 
 inductive Index where
